@@ -1293,7 +1293,7 @@ def run_loop(spec):
         header = {
             "stream": "loop", "n_workers": spec["n_workers"], "max_failures": spec.get("max_failures", 1),
             "async": flags.get("async", True), "wait": flags.get("wait", False), "swd": flags.get("swd", True),
-            "delete_checkpoints": bool(be.delete_checkpoints), "ckpt_cb": ckpt_cb, "store": store is not None,
+            "delete_checkpoints": bool(be.delete_checkpoints), "ckpt_cb": ckpt_cb, "store": store is not None, "store_every": bool(spec.get("store_every")),
             "sim_callback": sim, "criterion": criterion_wire(spec["criterion"], dlg),
             "key_time": dlg.keys[ST_WORKER_TIME], "key_cost": dlg.keys[ST_WORKER_COST], "key_tuner_time": dlg.keys[ST_TUNER_TIME],
             "metric_keys": [dlg.key(n) for n in names], "modes": mode if isinstance(mode, list) else [mode] * 1,
